@@ -135,6 +135,8 @@ class Run(object):
             replay_paths.append(path)
             out.append('VIOLATION property=%s replay=%s' % (self.prop, path))
             out.append('  ' + f.describe())
+            if os.environ.get('VERIF_PRINT_KEYS'):
+                out.append('  key=' + f.key)
         wall = time.time() - self.t0
         ev = {
             'property_id': self.prop,
